@@ -78,6 +78,3 @@ Proof. vm_compute; reflexivity. Qed.
 Lemma fns_closed : graph_closed fns = true.
 Proof. vm_compute; reflexivity. Qed.
 
-(* the translator met nothing it did not understand *)
-Lemma no_translator_warnings : translator_warnings = [].
-Proof. reflexivity. Qed.
